@@ -139,7 +139,7 @@ func abstractContentElem(path string, t types.Type) bool {
 	if !ok || bt.Info()&types.IsInteger == 0 || !strings.HasSuffix(path, "]") {
 		return false
 	}
-	for _, pre := range []string{"val:", "spec:", "lit:", "fmt", "cat"} {
+	for _, pre := range []string{"val:", "arg:", "spec:", "lit:", "fmt", "cat"} {
 		if strings.HasPrefix(path, pre) {
 			return true // (elements of abstract integer lists are set explicitly and never get here)
 		}
